@@ -155,7 +155,8 @@ def master_cases(draw):
                                                    'exec', 'proc', 'shell'])),
                      'via': draw(st.sampled_from(['submit_td', 'submit_td', 'submit_dict',
                                                   'run_task'])),
-                     'exit': draw(st.sampled_from([0, 0, 0, 1, 2, 127, -1, None])),
+                     'exit': draw(st.sampled_from([0, 0, 0, 1, 2, 127, -1, None, None])),
+                     'drop_key': draw(st.integers(0, 3)) == 0,
                      'ranks': draw(st.integers(0, 2)), 'cpr': draw(st.integers(0, 1))})
     ops = draw(st.lists(st.one_of(
         st.tuples(st.just('submit'), st.integers(1, 4)),
